@@ -495,6 +495,19 @@ func c18FoldBeforeRelease(c *Ctx) {
 	}
 	c.check("release.fold-before-markReady", rl.Name, g.pos(recv[0]), okFold,
 		"after a task completes, every path to markReady(t) must pass updateTaskResults(t) and then updateValue() (dependants must see the filled configuration)")
+	// a changed configuration is re-analysed (initTasks) before dependants are released
+	initN := pick(fl + "(*Controller).initTasks")
+	changed := func(e ast.Expr) (bool, bool) {
+		call, ok := e.(*ast.CallExpr)
+		if !ok || calleeName(info, call) != fl+"(*Controller).updateValue" {
+			return false, false
+		}
+		return true, true
+	}
+	rg := g.gate(changed, mark, initN, -1)
+	c.check("release.reinit-when-config-changed", rl.Name, g.pos(recv[0]), rg.found && !rg.leak && len(initN) > 0,
+		"whenever updateValue() reports a changed configuration, initTasks must run before markReady(t): new tasks and dependencies that appear in the more concrete configuration must be known before dependants are released (no other condition may suppress it)")
+
 	// failure edge returns: markReady reachable only through `case nil` of switch t.err
 	okFail := true
 	for m := range mark {
